@@ -55,8 +55,13 @@ func toInt(v any) any {
 	return v
 }
 
+// EmitQuiet records an event that does not count as activity for IdleFor
+func (t *Tracer) EmitQuiet(ev string, kv ...any) { t.emit(true, ev, kv...) }
+
 // Emit records an event; kv are alternating keys and values
-func (t *Tracer) Emit(ev string, kv ...any) {
+func (t *Tracer) Emit(ev string, kv ...any) { t.emit(false, ev, kv...) }
+
+func (t *Tracer) emit(quiet bool, ev string, kv ...any) {
 	t.mu.Lock()
 	t.seq++
 	m := Event{"seq": t.seq, "ev": ev, "t": time.Since(t.start).Microseconds()}
@@ -69,7 +74,7 @@ func (t *Tracer) Emit(ev string, kv ...any) {
 		}
 	}
 	t.evs = append(t.evs, m)
-	if !t.IdleIgnore[ev] {
+	if !quiet && !t.IdleIgnore[ev] {
 		t.lastEmit.Store(time.Now().UnixNano())
 	}
 	if t.OnEmit != nil {
